@@ -257,53 +257,104 @@ fn c01_king_position() {
     let want = king_position_spec(&p, dest as u8);
     assert!(got == want, "VERIF is_legal_king_position({:?}) = {}", dest, got);
 }
-fn king_position_spec(p: &r::P, dest: u8) -> bool {
-    let lifted = r::occ(p) & !g::bit(r::king_of(p, p.turn));
-    !r::attacked_with(p, dest, 1 - p.turn, lifted, 0)
+/// contract abstraction of is_legal_king_position WEAKENED to the squares the obligation asks about (bit mask
+/// KING_QUERY): exact on those squares, arbitrary elsewhere. Implied by the full contract (C01.king_position).
+static mut KING_QUERY: [u8; 4] = [64; 4];
+static mut KING_ANSWER: [bool; 4] = [false; 4];
+/// the harness evaluates the contract (attacked-square spec) ONCE per queried square before the call; the stub
+/// only looks the answers up
+fn king_query(p: &r::P, squares: [u8; 4]) {
+    let mut i = 0;
+    while i < 4 {
+        unsafe {
+            KING_QUERY[i] = squares[i];
+            KING_ANSWER[i] = if squares[i] < 64 { king_position_spec(p, squares[i]) } else { false };
+        }
+        i += 1;
+    }
 }
-/// contract abstraction of is_legal_king_position (discharged by C01.king_position)
-fn king_position_contract_stub(b: &Board, dest: Pos) -> bool {
-    king_position_spec(&view(b), dest as u8)
+fn king_position_query_stub(_b: &Board, dest: Pos) -> bool {
+    let d = dest as u8;
+    unsafe {
+        if d == KING_QUERY[0] {
+            KING_ANSWER[0]
+        } else if d == KING_QUERY[1] {
+            KING_ANSWER[1]
+        } else if d == KING_QUERY[2] {
+            KING_ANSWER[2]
+        } else if d == KING_QUERY[3] {
+            KING_ANSWER[3]
+        } else {
+            kani::any()
+        }
+    }
 }
-
-macro_rules! king_body {
+fn king_setup(in_check: bool) -> (Board, r::P, BitBoard) {
+    let b = any_board();
+    let p = view(&b);
+    kani::assume(r::one_king_each(&p) && r::at_most_16(&p) && r::rights_ok(&p));
+    kani::assume(!g::has(g::king_att(r::king_of(&p, 0)), r::king_of(&p, 1)));
+    kani::assume(b.checkers.any() == r::in_check_spec(&p));
+    kani::assume(b.checkers.any() == in_check);
+    let user_mask: BitBoard = kani::any();
+    (b, p, !b.raw[b.turn] & user_mask)
+}
+/// king steps (and, while in check, the absence of castling): for EVERY destination d that is not a castling
+/// destination of a not-in-check king: (king, d) generated iff legal and masked
+macro_rules! king_steps {
     ($name:ident, $check:expr) => {
         #[kani::proof]
         #[kani::unwind(10)]
-        #[kani::stub(crate::Board::is_legal_king_position, king_position_contract_stub)]
+        #[kani::stub(crate::Board::is_legal_king_position, king_position_query_stub)]
         #[kani::stub_verified(chess_lookup::king_moves)]
         fn $name() {
-            let b = any_board();
-            let p = view(&b);
-            kani::assume(r::one_king_each(&p) && r::at_most_16(&p) && r::rights_ok(&p) && r::opponent_not_in_check(&p));
-            kani::assume(b.checkers.any() == r::in_check_spec(&p));
-            kani::assume(b.checkers.any() == $check);
-            let user_mask: BitBoard = kani::any();
-            let mask = !b.raw[b.turn] & user_mask;
-            let mut list = MoveList::default();
-            King::king_legals::<{ $check }>(&mut list, &b, b.turn, mask);
+            let (b, p, mask) = king_setup($check);
             let k = r::king_of(&p, p.turn);
             let d: u8 = kani::any();
-            kani::assume(d < 64);
+            kani::assume(d < 64 && d != r::king_of(&p, 1 - p.turn));
+            let is_castle = (g::file_of(d) as i8 - g::file_of(k) as i8).abs() == 2 && g::rank_of(d) == g::rank_of(k);
+            kani::assume($check || !is_castle);
+            king_query(&p, [d, 64, 64, 64]);
+            let mut list = MoveList::default();
+            King::king_legals::<{ $check }>(&mut list, &b, b.turn, mask);
             let dp = Pos::from_u8(d).unwrap();
             assert!(list.len() <= 1, "VERIF more than one king entry");
-            let want = r::legal(&p, r::Mv { src: k, dst: d, promo: 0 });
-            let is_castle = (g::file_of(d) as i8 - g::file_of(k) as i8).abs() == 2;
-            // ordinary king steps are masked by the generator; castling destinations are filtered by the iterator's mask
+            let want = r::legal(&p, r::Mv { src: k, dst: d, promo: 0 }) && mask.contains(dp);
             let got = list.len() == 1 && list[0].moves.contains(dp);
-            if is_castle {
-                assert!(got == want, "VERIF castling {}->{} on [{}]: generated {} legal {}", k, d, b, got, want);
-            } else {
-                assert!(got == (want && mask.contains(dp)), "VERIF king {}->{} on [{}]: generated {} legal {} masked {}", k, d, b, got, want, mask.contains(dp));
-            }
+            assert!(got == want, "VERIF king {}->{} on [{}]: generated {} legal&&masked {}", k, d, b, got, want);
             if list.len() == 1 {
                 assert!(list[0].src as u8 == k && !list[0].promotion && list[0].moves.any(), "VERIF king entry shape");
             }
         }
     };
 }
-king_body!(c01_king_nocheck, false);
-king_body!(c01_king_check, true);
+king_steps!(c01_king_nocheck, false);
+king_steps!(c01_king_check, true);
+
+/// castling (king not in check, all 16 rights values, both colours): (e1/e8 -> g or c file) generated iff the right
+/// is present, the squares between king and rook are empty, and the king's square, the transit square and the
+/// destination are not attacked (the spec decides the last by make-move as well). Castling destinations are not
+/// masked by the generator (the iterator's mask filters them).
+#[kani::proof]
+#[kani::unwind(10)]
+#[kani::stub(crate::Board::is_legal_king_position, king_position_query_stub)]
+#[kani::stub_verified(chess_lookup::king_moves)]
+fn c01_king_castle() {
+    let (b, p, mask) = king_setup(false);
+    let k = r::king_of(&p, p.turn);
+    let d: u8 = kani::any();
+    kani::assume(d < 64);
+    kani::assume((g::file_of(d) as i8 - g::file_of(k) as i8).abs() == 2 && g::rank_of(d) == g::rank_of(k));
+    // the generator consults the four squares c, d, f, g of the mover's back rank
+    let hr = if p.turn == g::WHITE { 0 } else { 7 };
+    king_query(&p, [g::sq_of(2, hr), g::sq_of(3, hr), g::sq_of(5, hr), g::sq_of(6, hr)]);
+    let mut list = MoveList::default();
+    King::king_legals::<false>(&mut list, &b, b.turn, mask);
+    let dp = Pos::from_u8(d).unwrap();
+    let want = r::legal(&p, r::Mv { src: k, dst: d, promo: 0 });
+    let got = list.len() == 1 && list[0].moves.contains(dp);
+    assert!(got == want, "VERIF castling {}->{} on [{}]: generated {} legal {}", k, d, b, got, want);
+}
 
 /// check_mask: squares on which a non-king move resolves a single check: between(king, checker) + checker; everything when not in check
 #[kani::proof]
